@@ -8,19 +8,19 @@ FUNCTIONS = ["IntervalConstraint::{ctor,isCorrect,includes,isEmpty,getLimit,getA
              "AutoParameter::setValue", "ParameterList::{setParameterValue,setParametersValues,addParameter}",
              "AbstractParametrizable::setParameterValue"]
 BOUNDS = ("all real bounds/values/test points (REAL mode) and all IEEE doubles except NaN (FP mode, kernels 0-3); each bound finite or infinite; 4 open/closed flags; "
-          "one inductive step from an arbitrary valid state for 7 mutators; histories of construct + 3 calls (thorough) / 2 calls (quick) out of {setValue,setConstraint,removeConstraint,copy+assign}; "
+          "one inductive step from an arbitrary valid state (any precision >= 0) for 7 mutators; histories of construct (any precision >= 0) + 2 calls out of {setValue,setConstraint,removeConstraint,copy+assign back,assign from another constrained parameter} (quick) / 3 calls out of the first four (thorough); "
           "auto-correcting parameter: |x|<=1e3, bounds in [-1e3,1e3], width>=1e-9, exact real arithmetic")
-OUTSIDE = ["bracket-syntax parser (decided in C16/C17 engine-K jobs, not here)", "histories longer than 3 calls after construction", "non-zero parameter precision",
+OUTSIDE = ["bracket-syntax parser (decided in C16/C17 engine-K jobs, not here)", "histories longer than 3 calls after construction", "non-zero precision of the auto-correcting parameter",
            "rounding of lowerBound+1e-12 in the auto-correcting parameter (REAL mode is exact arithmetic)"]
 ASSUMPTIONS = ["z3 5.1.0 is sound for QF_NRA/QF_FP queries", "clang -O1 IR is the semantics of the code (no fast-math; FP contraction off)",
                "REAL mode: IEEE rounding is outside the claim", "message handler of AutoParameter set to null (output formatting is not the subject)"]
 
 JOBS = [
-    Job("kernels-real", "C01.cpp", ["HLO=0", "HHI=3"], mode="real", budget_s=120, desc="interval membership/emptiness/limits, intersection, construction, one inductive step of every mutator; all reals"),
+    Job("kernels-real", "C01.cpp", ["HLO=0", "HHI=3"], mode="real", budget_s=400, desc="interval membership/emptiness/limits, intersection, construction, one inductive step of every mutator; all reals"),
     Job("fp-membership", "C01.cpp", ["HLO=0", "HHI=0", "FPMODE"], mode="fp", budget_s=120, desc="membership/emptiness/limits over all IEEE doubles (incl. +-inf, -0, subnormals), NaN excluded"),
     Job("fp-construct", "C01.cpp", ["HLO=2", "HHI=2", "FPMODE"], mode="fp", budget_s=120, desc="construction/copy over all IEEE doubles, NaN excluded"),
     Job("fp-intersection", "C01.cpp", ["HLO=1", "HHI=1", "FPMODE"], mode="fp", tiers=("thorough",), budget_s=1500, desc="intersection (both forms) over all IEEE doubles, NaN excluded"),
-    Job("histories", "C01.cpp", ["HLO=4", "HHI=4", "NSTEPS=2"], thorough_defines=["HLO=4", "HHI=4", "NSTEPS=3"], mode="real", budget_s=200, thorough_budget_s=1500, desc="construct then 2 (quick) / 3 (thorough) arbitrary calls incl. raising ones"),
+    Job("histories", "C01.cpp", ["HLO=4", "HHI=4", "NSTEPS=2"], thorough_defines=["HLO=4", "HHI=4", "NSTEPS=3", "OPMAX=3"], mode="real", budget_s=500, thorough_budget_s=3000, desc="construct (any precision >= 0) then 2 arbitrary calls out of setValue / setConstraint / removeConstraint / copy and assign back / assign from another constrained parameter with its own precision, incl. raising and precision-ignored ones (thorough: 3 calls without the last kind)"),
     Job("auto", "C01.cpp", ["HLO=5", "HHI=5"], mode="real", budget_s=120, replay_tol=1e-16, desc="auto-correcting parameter: never raises, ends accepted and nearest"),
 ]
 
